@@ -240,12 +240,18 @@ func startProxyOnce(c *child.Ctx, id int, smallWindow bool) (*proxyProc, error) 
 	}
 	p.upstream = up
 	p.proxyPort, p.ctlPort = freePort(), freePort()
+	// record_messages stays true: with it false the proxy of the pinned commit does not
+	// start at all (nil message log dereferenced in main) - a configuration matter
+	// outside C19, which quantifies over traffic and schedules (DESIGN section 10)
 	cfg := fmt.Sprintf(`{"remote_host": "127.0.0.1:%d", "proxy_host": "127.0.0.1", "proxy_port": %d, "control_host": "127.0.0.1", "control_port": %d, "record_messages": true, "message_log_directory": %q}`,
 		up.Addr().(*net.TCPAddr).Port, p.proxyPort, p.ctlPort, filepath.Join(p.dir, "logs"))
 	os.WriteFile(filepath.Join(p.dir, "cfg.json"), []byte(cfg), 0644)
 	p.cmd = exec.Command(filepath.Join(c.BinDir, "proxy"), "-c", filepath.Join(p.dir, "cfg.json"))
 	p.cmd.Dir = p.dir
 	p.cmd.Env = append(os.Environ(), "GORACE=halt_on_error=1 exitcode=66 atexit_sleep_ms=0", "GOTRACEBACK=all")
+	if id%4 == 1 {
+		p.cmd.Env = append(p.cmd.Env, "GOGC=1")
+	}
 	p.stderr = filepath.Join(p.dir, "stderr.txt")
 	ef, _ := os.Create(p.stderr)
 	p.cmd.Stderr = ef
